@@ -1076,6 +1076,10 @@ impl TwoFloat {
             Self::from(0.0)
         } else if self <= 0.0 {
             Self::NAN
+        } else if self.hi < hexf64!("0x1.0p-1000") {
+            // exp(-x) in the Newton steps below would overflow: rescale
+            // (multiplication by 2^200 is exact)
+            (self * hexf64!("0x1.0p200")).ln() - 200.0 * LN_2
         } else {
             let mut x = Self::from(libm::log(self.hi));
             x += self * (-x).exp() - 1.0;
